@@ -58,7 +58,7 @@ class Item:
         g = C.globals_for(self.case)
         env = env_cls(loader=ld, **kw)
         env.globals.update(g["env"])
-        h = env.get_template("h", globals=g["h"])
+        h = env.get_template("h", globals=g["h"]) if "h" in self.sources else None
         if C._fields(self.case).get("target") == "lit-warm":
             # the helper's default module already exists (cached) before the main template runs
             if env.is_async:
@@ -67,14 +67,7 @@ class Item:
                 e4.run(h._get_default_module_async())
             else:
                 h.module  # creates and caches the default module
-        bound = {}
-        for k, v in self.data.items():
-            if isinstance(v, C.TemplateRef):
-                v = env.get_template(v.name, globals=v.globals)
-            elif isinstance(v, C.TemplateFromString):
-                v = env.from_string(v.source, globals=v.globals)
-            bound[k] = v
-        return env, (lambda: env.get_template(self.main, globals=g["main"])), bound
+        return env, (lambda: env.get_template(self.main, globals=g["main"])), C.bind_data(env, self.data)
 
 
 def _stmt_items(profile, n, shard):
@@ -92,8 +85,8 @@ def _inh_items(bound, shard):
 
 def _ctx_items(bound, shard, flt=None):
     for case in C.cases(bound, shard=shard):
-        if case[0] == "mod":
-            continue
+        if case[0] == "mod" or (case[0] == "sel" and not case[1].startswith("inc")) or (case[0] == "tset" and case[1] != "import"):
+            continue  # no main template: module attributes and select_template calls are C05's own observations
         if flt == "no-template-globals":
             f = C._fields(case)
             if f.get("mglob") or f.get("hglob"):
